@@ -36,10 +36,14 @@ def corpus():
 
 ENGINES = [{"name": "pipe", "gen": gen, "corpus": corpus, "nontrivial": nontrivial, "classify": pipegen.classify, "shards": 12}]
 known_signature = known_signature_for(set())
+# gate part: GateMetrics num_updates / num_dropped_updates (src/comms.rs) against the Gate model (theorems C15_gate_*)
+from props.c08 import C15_GATE_ENGINE  # noqa: E402
+ENGINES.append(C15_GATE_ENGINE)
 LEVEL_TEXT = ("Theorems over all message histories of the state-machine model: the three peer gauges equal the numbers read off the peer table at every "
               "point, every counter equals the number of matching events, counters are monotone, the state metric follows the phase. Kernel-checked, "
               "axiom-free; tied to the real code by reading the rendered Prometheus exposition at random quiescent points of generated histories.")
 DESIGN_REF = "DESIGN.md section 6, C15"
 LEVEL_NOTE = ("Trusted: Coq kernel, extraction + OCaml driver, Rust harness and its parser of the Prometheus text. Router-handler and unit level metrics "
-              "(connected routers, per-type message counts, connections accepted/lost) and gate metrics are NOT in this model; see DESIGN.md.")
+              "(connected routers, per-type message counts, connections accepted/lost) are NOT in this model; see DESIGN.md. Gate counters "
+              "(num_updates / num_dropped_updates): engine c15gate over the Gate model of C08, theorems C15_gate_*.")
 TECHNIQUE = "Coq proof by invariant over message histories + model/implementation correspondence on rendered metrics"
